@@ -33,7 +33,7 @@ REQUIRE = {'hits_checked': 5000, 'refused_by_count': 200, 'refused_by_period': 2
            'overlap_cases': 30, 'hits_while_collection_open': 30, 'interpose_points': 15,
            'overlap_cases_with_condition': 8, 'sequential_probe_hits': 60,
            'line_preemption_points': 40, 'line_preemptions_where_second_hit_completed': 2,
-           'window_argument_cases': 6}
+           'window_argument_cases': 6, 'straggler_cases': 6}
 T0 = 1_700_000_000_000_000_000
 MS = 1_000_000
 
@@ -55,6 +55,7 @@ def plan(tier, seed):
     specs += split_seeds('i%s' % seed, 12 * n, 3, 'interpose')
     specs += split_seeds('l%s' % seed, 8 * n, 4, 'linepreempt')
     specs += split_seeds('w%s' % seed, 8 * n, 1, 'argwindow')
+    specs += split_seeds('z%s' % seed, 8 * n, 1, 'straggler')
     return specs
 
 
@@ -796,6 +797,65 @@ def case_argwindow(seed, out, spec, wd):
     out.case({'argwindow': which, 'kind': kind, 'n': nhits}, nontrivial=True, sample=witness)
 
 
+def case_straggler(seed, out, spec, wd):
+    """A hit whose time stamp lies *between* two collections that have already been recorded (its thread took the time
+    stamp, was held up, and reaches the limiter after later hits were collected): its distance to the nearest collection
+    decides, not its distance to the latest one."""
+    import os
+    r = Rng('c04z', seed)
+    plugins.reset()
+    path, mod, line = setup_host(wd, 'z')
+    base = os.path.basename(path)
+    fp = r.pick([100, 1000, 50])
+    kind = r.pick(['snapshot', 'log'])
+    cfg = {'fire_count': -1, 'fire_period': fp}
+    if kind == 'log':
+        cfg['log_msg'] = 'z'
+    trig = direct_trigger('tp', base, line, 'Log' if kind == 'log' else 'Snapshot', cfg)
+    rig = Rig(custom={}, host_dir=wd, plugins=[plugins.RecLogger()])
+    rig.install([trig])
+    first = r.randrange(1, 50)
+    second = first + fp + r.randrange(0, 3 * fp)
+    late = first + r.randrange(1, fp)            # closer than one period to the first collection
+    order = [first, second, late]
+    logged_at = []
+
+    def hook(name, callback, payload):
+        if callback == 'log':
+            logged_at.append(clock.time_ns())
+
+    plugins.HOOK[0] = hook
+
+    def body():
+        for t_ms in order:
+            clock.set_virtual(T0 + t_ms * MS)
+            mod.leaf(None, True)
+
+    try:
+        _, exc = rig.run(body)
+    finally:
+        clock.set_virtual(None)
+        plugins.HOOK[0] = None
+    got = sorted(rec.snapshot.ts_nanos for rec in rig.push.pushed) if kind == 'snapshot' else sorted(logged_at)
+    rig.cleanup()
+    replay = replay_spec(spec, seed)
+    witness = {'fire_period_ms': fp, 'hits_reach_the_limiter_in_this_order_ms': order,
+               'collections_at_ms': [round((x - T0) / MS, 3) for x in got]}
+    gaps = [b - a for a, b in zip(got, got[1:])]
+    if exc is not None or rig.escapes:
+        out.violation('containment:escape', 'host outcome %r / %s' % (exc, rig.escapes[:1]), witness, replay)
+    elif any(g < fp * MS for g in gaps):
+        out.violation('ratelimit:period-violated-by-straggler',
+                      'collections %s ms with fire_period=%d: the hit stamped %d ms reached the limiter after the one '
+                      'stamped %d ms had been collected and was only compared with that one' % (
+                          witness['collections_at_ms'], fp, late, second), witness, replay)
+    elif len(got) < 2:
+        out.violation('ratelimit:due-hit-not-collected', 'the two hits more than a period apart were not both collected: %s' % (
+            witness['collections_at_ms'],), witness, replay)
+    out.count('straggler_cases')
+    out.case({'straggler': order, 'fp': fp, 'kind': kind}, nontrivial=True, sample=witness)
+
+
 def case_linepreempt(seed, out, spec, wd):
     """Pre-emption inside the limiter itself: thread A asks the action whether its hit may collect; at its k-th line
     inside deep/api/tracepoint (every k is tried, sys.monitoring LINE events) a second thread performs a complete hit
@@ -904,7 +964,7 @@ def case_linepreempt(seed, out, spec, wd):
 
 
 CASES = {'hist': case_hist, 'gate': case_gate, 'stress': case_stress, 'overlap': case_overlap,
-         'interpose': case_interpose, 'linepreempt': case_linepreempt, 'argwindow': case_argwindow}
+         'interpose': case_interpose, 'linepreempt': case_linepreempt, 'argwindow': case_argwindow, 'straggler': case_straggler}
 
 
 def run_shard(spec, out):
